@@ -383,13 +383,17 @@ impl Formatter {
         self.writer.write(&nt.name);
         self.writer.write(" = newtype ");
         self.format_type(&nt.underlying.node);
-        self.writer.newline();
 
-        // Methods if any
-        if !nt.methods.is_empty() {
+        // Methods if any (the method block is introduced by a colon)
+        if nt.methods.is_empty() {
+            self.writer.newline();
+        } else {
+            self.writer.writeln(":");
             self.writer.indent();
-            for method in &nt.methods {
-                self.writer.newline();
+            for (i, method) in nt.methods.iter().enumerate() {
+                if i > 0 {
+                    self.writer.newline();
+                }
                 self.format_method(&method.node);
             }
             self.writer.dedent();
